@@ -7,7 +7,6 @@ import numpy as np
 import sysgen
 from common import Cmat, Cx, R, Rmat, cfl, fl, flmat, max_rel_err
 
-from common import wiring_pre_build as pre_build  # noqa: E402,F401
 
 LEAN_MODULES = ["PyomaVerif.Props.C01", "PyomaVerif.Props.WiringRun", "PyomaVerif.Props.C01C11", "PyomaVerif.Props.C01E2E", "PyomaVerif.Props.C01Stored", "PyomaVerif.Props.WiringCalls", "PyomaVerif.Props.C01Table", "PyomaVerif.Props.C03Table", "PyomaVerif.Props.C01TableLegacy", "PyomaVerif.Props.C01Excite", "PyomaVerif.Props.C01Args", "PyomaVerif.Mutants.C01Args", "PyomaVerif.Props.C01StoredTable"]
 THEOREMS = [
